@@ -191,6 +191,38 @@ func vkind(v interface{}) string {
 	return "" // null: kind unknown
 }
 
+// semKind reports the shape of a setting's default value (the specification decides what follows from it).
+func semKind(v interface{}) string {
+	switch x := v.(type) {
+	case string:
+		if x == "" {
+			return "unknown"
+		}
+		if _, err := time.ParseDuration(x); err == nil {
+			return "duration"
+		}
+		if strings.HasPrefix(x, "/ip") || strings.HasPrefix(x, "/dns") || strings.HasPrefix(x, "/unix") {
+			return "multiaddr"
+		}
+		return "text"
+	case json.Number, float64:
+		return "number"
+	case bool:
+		return "bool"
+	case []interface{}:
+		if len(x) == 0 {
+			return "list-empty"
+		}
+		if semKind(x[0]) == "multiaddr" {
+			return "list-multiaddr"
+		}
+		return "list-text"
+	case tree:
+		return "map"
+	}
+	return "null"
+}
+
 // ---------------------------------------------------------------------------
 // concretisation of the value classes of spec/Config.tla
 // ---------------------------------------------------------------------------
@@ -468,6 +500,8 @@ func relation(saved tree, path []string, given interface{}, removed bool, def in
 	switch {
 	case !ok && removed:
 		return "same"
+	case !ok && hasDef && same(given, def):
+		return "same" // omitted from the saved form because it is the default
 	case !ok:
 		return "absent"
 	case !removed && same(got, given):
@@ -480,6 +514,7 @@ func relation(saved tree, path []string, given interface{}, removed bool, def in
 
 func TestConfig(t *testing.T) {
 	logging.SetAllLoggers(logging.LevelPanic)
+	config.ConfigSaveInterval = 2 * time.Millisecond // Manager.Shutdown waits for one tick per registered component
 	res := hx.NewResult()
 	defer res.Write()
 	out, err := os.Create(os.Getenv("VERIF_TRACE"))
@@ -533,6 +568,7 @@ func TestConfig(t *testing.T) {
 	}
 
 	nsettings := 0
+	npairs := 0
 	perSection := map[string]int{}
 	for _, sec := range sections {
 		// ---- DefaultValid
@@ -574,18 +610,41 @@ func TestConfig(t *testing.T) {
 		sort.Strings(names)
 		nsettings += len(names)
 		perSection[sec.name] = len(names)
+		var kept, swallowed []caseInfo
 
 		for _, name := range names {
 			path := settings[name]
+			// the default of a setting: from the saved form, else (omitempty keys) from the display form
 			defVal, hasDef := get(save0, path)
+			if !hasDef {
+				if d, ok := get(disp0, path); ok {
+					if s, isS := d.(string); !(isS && s == hidden) {
+						defVal, hasDef = d, true
+					}
+				}
+			}
 			shape := defVal
-			if !hasDef || shape == nil {
+			if shape == nil {
 				shape, _ = get(disp0, path)
 			}
 			if s, isS := shape.(string); isS && s == hidden {
-				shape = ""
+				shape = nil // the display form hides it and the saved default is null: kind unknown, try every kind
 			}
 			kind := vkind(shape)
+			skind := semKind(shape)
+			if skind == "unknown" || skind == "text" {
+				// an empty default says nothing: a string setting that gives "90s" back as "1m30s" holds a duration
+				pj := clone(save0).(tree)
+				set(pj, path, "90s", false)
+				pb, _ := json.Marshal(pj)
+				if l := loadAlone(sec, pb); l.outcome == "accepted" && l.saved != nil {
+					if got, ok := get(l.saved, path); ok {
+						if gs, isS := got.(string); isS && gs != "90s" && same(gs, "90s") {
+							skind = "duration"
+						}
+					}
+				}
+			}
 			kinds := []string{kind}
 			if kind == "" { // null in both forms: try it as every kind
 				kinds = []string{"string", "number", "bool", "array", "object"}
@@ -596,7 +655,16 @@ func TestConfig(t *testing.T) {
 						if only != "" && only != strings.Join([]string{sec.name, name, class, scope}, "/") {
 							continue
 						}
-						r.loadCase(sec, name, path, k, class, scope, save0, full, defVal, hasDef, shape)
+						ci := r.loadCase(sec, name, path, k, skind, class, scope, save0, full, defVal, hasDef, shape, nil)
+						if scope != "alone" || ci.outcome != "accepted" || ci.isdefault || class == "absent" || class == "null" {
+							continue
+						}
+						switch ci.rel {
+						case "same":
+							kept = append(kept, ci)
+						case "default", "absent":
+							swallowed = append(swallowed, ci) // given, accepted, not kept
+						}
 					}
 				}
 			}
@@ -604,7 +672,24 @@ func TestConfig(t *testing.T) {
 				r.hiddenCase(sec, name, path, save0, full, kind)
 			}
 		}
+		// a value the loader swallows must not take other settings with it: every kept (setting, class)
+		// again, next to each swallowed one
 		if only == "" {
+			seenSw := map[string]bool{}
+			for _, g := range swallowed {
+				if seenSw[g.name] { // one swallowed value per setting is enough
+					continue
+				}
+				seenSw[g.name] = true
+				for _, w := range kept {
+					if w.name == g.name || strings.HasPrefix(w.name, g.name+".") || strings.HasPrefix(g.name, w.name+".") {
+						continue
+					}
+					r.loadCase(sec, w.name, w.path, w.kind, w.skind, w.class, "pair", save0, full, w.defVal, w.hasDef, w.shape,
+						&edit{name: g.name, class: g.class, path: g.path, v: g.v})
+					npairs++
+				}
+			}
 			r.rejectCases(sec, raw0)
 		}
 	}
@@ -612,24 +697,46 @@ func TestConfig(t *testing.T) {
 	res.Set("settings_extracted_from_code", nsettings)
 	res.Set("settings_per_section", perSection)
 	res.Set("facts_recorded", r.n)
+	res.Set("pair_cases", npairs)
 }
 
 // loadCase gives one setting one value and records what the real loader made of it.
-func (r *run) loadCase(sec section, name string, path []string, kind, class, scope string, save0, full tree,
-	defVal interface{}, hasDef bool, shape interface{}) {
+type edit struct {
+	name, class string
+	path        []string
+	v           interface{}
+}
+
+type caseInfo struct {
+	name, kind, skind, class string
+	path                     []string
+	defVal, shape            interface{}
+	hasDef                   bool
+	v                        interface{}
+	outcome, rel             string
+	isdefault                bool
+}
+
+func (r *run) loadCase(sec section, name string, path []string, kind, skind, class, scope string, save0, full tree,
+	defVal interface{}, hasDef bool, shape interface{}, with *edit) (ci caseInfo) {
 	v, remove, ok := r.sv.concrete(class, shape)
 	if !ok {
 		r.res.Infra("value class %q of the specification is unknown to the driver", class)
 		return
 	}
-	f := fact{"fact": "load", "section": sec.name, "setting": name, "vkind": kind, "class": class, "scope": scope,
-		"valid": false, "rel": "n/a", "reload": "n/a", "stable": false, "isdefault": hasDef && !remove && same(v, defVal), "value": v}
+	ci = caseInfo{name: name, kind: kind, skind: skind, class: class, path: path, defVal: defVal, shape: shape, hasDef: hasDef, v: v}
+	f := fact{"fact": "load", "section": sec.name, "setting": name, "vkind": kind, "skind": skind, "class": class, "scope": scope,
+		"valid": false, "rel": "n/a", "reload": "n/a", "stable": false, "isdefault": hasDef && !remove && same(v, defVal), "value": canon(v)}
 	j := clone(save0).(tree)
 	set(j, path, v, remove)
+	if with != nil {
+		set(j, with.path, with.v, false)
+		f["with"] = with.name + "=" + with.class
+	}
 	jb, _ := json.Marshal(j)
 	var l, l2 loaded
 	switch scope {
-	case "alone":
+	case "alone", "pair":
 		l = loadAlone(sec, jb)
 		if l.outcome == "accepted" && l.raw != nil {
 			l2 = loadAlone(sec, l.raw)
@@ -700,7 +807,7 @@ func (r *run) loadCase(sec section, name string, path []string, kind, class, sco
 		if l.saved != nil {
 			f["rel"] = relation(l.saved, path, v, remove, defVal, hasDef)
 			if got, ok := get(l.saved, path); ok {
-				f["saved"] = got
+				f["saved"] = canon(got)
 			}
 			f["reload"] = l2.outcome
 			f["stable"] = l2.saved != nil && canon(l2.saved) == canon(l.saved)
@@ -713,7 +820,15 @@ func (r *run) loadCase(sec section, name string, path []string, kind, class, sco
 		}
 	}
 	r.emit(f)
-	r.res.Case(fact{"section": sec.name, "setting": name, "class": class, "scope": scope}, class != "absent")
+	id := fact{"section": sec.name, "setting": name, "class": class, "scope": scope}
+	if with != nil {
+		id["with"] = f["with"]
+	}
+	r.res.Case(id, class != "absent")
+	ci.outcome, _ = f["outcome"].(string)
+	ci.rel, _ = f["rel"].(string)
+	ci.isdefault, _ = f["isdefault"].(bool)
+	return ci
 }
 
 // hiddenCase injects a recognisable value into a setting and records whether the display forms show it.
@@ -725,6 +840,9 @@ func (r *run) hiddenCase(sec section, name string, path []string, save0, full tr
 		j := clone(save0).(tree)
 		set(j, path, v, false)
 		return j
+	}
+	if kind == "" || kind == "object" {
+		candidates = append(candidates, mkj(tree{"verifuser": sentinel}))
 	}
 	switch kind {
 	case "string", "":
@@ -741,7 +859,6 @@ func (r *run) hiddenCase(sec section, name string, path []string, save0, full tr
 		j["__sentinel"] = base64.StdEncoding.EncodeToString(pb)
 		candidates = append(candidates, j)
 	case "object":
-		candidates = append(candidates, mkj(tree{"verifuser": sentinel}))
 	default:
 		return
 	}
